@@ -33,6 +33,18 @@ def main():
                 except Exception as ex:  # noqa
                     t["error"] = type(ex).__name__
                 out.append({"key": j["key"] + ":" + op, "variant": j["variant"], "kind": "scoring", "trace": t})
+                # the to_float variants: the float of the exact tally, hence identical for every presentation of the same bag
+                if op != "mentions" or True:
+                    tf = {"op": op + "_float", "floats": [], "from_exact": True, "error": ""}
+                    try:
+                        with quiet():
+                            exact = f(prof)
+                            fl = f(prof, to_float=True)
+                        tf["floats"] = sorted([inv[c], repr(float(v))] for c, v in fl.items())
+                        tf["from_exact"] = all(float(exact[c]) == fl[c] for c in exact)
+                    except Exception as ex:  # noqa
+                        tf["error"] = type(ex).__name__
+                    out.append({"key": j["key"] + ":" + op + "_float", "variant": j["variant"], "kind": "scoring_float", "trace": tf})
         elif j["kind"] == "pairwise":
             from harness.drivers.c06 import call_work
             t = call_work({"cands": j["cands"], "ballots": j["ballots"], "names": j["names"], "cand_order": j["cand_order"]})[0]
